@@ -615,7 +615,11 @@ def diff(a, n=1, axis=-1, prepend=None, append=None):
 
     r = a
     for _ in range(n):
-        r = r[sl_1] - r[sl_2]
+        if r.dtype == np.bool_:
+            # like np.diff: ``-`` is not defined for booleans
+            r = r[sl_1] != r[sl_2]
+        else:
+            r = r[sl_1] - r[sl_2]
 
     return r
 
